@@ -45,6 +45,7 @@ from workflows.runtime.types.plugin import (
 from workflows.runtime.types.ticks import (
     TickIdleRelease,
     WorkflowTick,
+    WorkflowTickAdapter,
 )
 from workflows.workflow import Workflow
 
@@ -314,6 +315,12 @@ class DBOSIdleReleaseDecorator(BaseRuntimeDecorator):
         # has it queued before it starts processing.
         if pending_tick is not None:
             init_state = rebuild_state_from_ticks(init_state, [pending_tick])
+            # This tick is applied here instead of going through the control loop's
+            # on_tick, so record it ourselves: otherwise the tick log has a hole and
+            # the next rebuild from ticks (a second release/resume) fails to replay.
+            await self._store.append_tick(
+                run_id, WorkflowTickAdapter.dump_python(pending_tick, mode="json")
+            )
 
         # Carry over state from old run's state store
         serializer = JsonSerializer()
